@@ -28,6 +28,7 @@ RULE = (
 )
 ASSUMPTIONS = [
     "a 'timestamp field' is a data field of scalar type datetime (datetime[] fields and the _generated metadata are not expanded)",
+    "an original field that is itself named ts or ts_description is shadowed by the expansion's two new fields (their content is fixed by the statement); every other data field must be kept with type and value",
     "for a record without timestamp fields the expansion may yield nothing or the unchanged original record (documented behaviour)",
     "the expansion's metadata slots are observed but not demanded by C15 (the statement speaks of non-metadata fields; C16 decides them for rdump)",
     "replacement values handed to _replace / init_from_dict are already of the field's type (no conversion semantics are assumed)",
@@ -353,7 +354,7 @@ def do_grouped(ctx, case, mk, shadow=False):
     try:
         g = mk.grouped(pool=pool)
     except Exception as ex:  # noqa: BLE001
-        ctx.violation(KEY_SHADOW if shadow else None, "constructing a grouped record raised %s" % type(ex).__name__, detail={"exception": repr(ex)[:300]})
+        ctx.violation(None, "constructing a grouped record raised %s" % type(ex).__name__, detail={"exception": repr(ex)[:300], "shadow_names": shadow})
         return
     ctx.ev()
     members = list(g.records)
